@@ -59,7 +59,45 @@ def run(ctx):
                               % (f, a.split()[0], a.split()[1], mf, b.split()[0]),
                               {"fen": f, "mirror": mf, "score": a, "mirror_score": b, "class": cls.get(f), "confirm": "position fen <fen> ; staticeval"},
                               key="c13:sym:" + f)
-    ctx.cov["evaluations"] = 2 * nsym + len(fens)
+    # (3) the same through ONE long-lived evaluator (the engine has exactly one, shared by all searches): a game-like sequence of positions
+    #     P1, mirror(P1), P2, mirror(P2), ... in which consecutive positions share the pawn structure and differ in castling rights, king
+    #     squares or material; the value of each Pi must equal the value of its mirror IN THAT HISTORY
+    def us(f_):
+        return f_.replace(" ", "_")
+    BASES = ["r3k2r/p1ppqpb1/bn2pnp1/3PN3/1p2P3/2N2Q1p/PPPBBPPP/R3K2R w KQkq - 0 1", "r1bqk2r/ppp2ppp/2np1n2/2b1p3/2B1P3/2NP1N2/PPP2PPP/R1BQK2R b KQkq - 0 6",
+             "r3k2r/ppp2ppp/2n5/3pp3/8/2N2N2/PP3PPP/R3K2R w KQkq - 0 1", "r3k2r/1pp2p1p/p5p1/8/8/P5P1/1PP2P1P/R3K2R b KQkq - 0 1",
+             "r3k2r/5ppp/8/8/8/8/PPP5/R3K2R w KQkq - 0 1", "r3k2r/ppp5/8/8/8/8/5PPP/R3K2R b KQkq - 0 1"]
+    hseqs = []
+    for f_ in BASES + [x for x in fens if x.split()[2] not in ("-",)][: (20 if q else 300)]:
+        p_ = f_.split()
+        avail = p_[2]
+        vs = []
+        for mask in range(1 << len(avail)):
+            r_ = "".join(ch for i, ch in enumerate(avail) if mask >> i & 1) or "-"
+            vs.append(" ".join([p_[0], p_[1], r_, "-", p_[4], p_[5]]))
+        vs = posgen.filter_valid(model, vs)
+        for _ in range(2 if q else 4):
+            order = list(vs)
+            ctx.rng.shuffle(order)
+            seq = []
+            for v in order:
+                seq += [v, posgen.mirror_fen(v)] if ctx.rng.random() < 0.5 else [posgen.mirror_fen(v), v]
+            hseqs.append(seq)
+    rch, hv, eh = run_lines(impl, ["evalseq " + " ".join(us(x) for x in sq_) for sq_ in hseqs], shards=NPROC)
+    nh = 0
+    for sq_, r in zip(hseqs, hv):
+        vals = (r or "").split()
+        for i in range(0, min(len(vals), len(sq_)) - 1, 2):
+            nh += 1
+            if vals[i] != vals[i + 1]:
+                nviol += 1
+                if nviol <= 8:
+                    ctx.violation("evaluation is not colour-symmetric inside one evaluator's history: after [%s] '%s' scores %s and its mirror '%s' scores %s"
+                                  % (" ; ".join(x.split()[0] + " " + x.split()[2] for x in sq_[:i]), sq_[i], vals[i], sq_[i + 1], vals[i + 1]),
+                                  {"sequence": sq_[: i + 2], "values": vals[: i + 2]}, key="c13:hist:" + sq_[i])
+                break
+    ctx.notes["mirror_pairs_in_one_evaluator_history"] = nh
+    ctx.cov["evaluations"] = 2 * nsym + len(fens) + 2 * nh
     ctx.cov["distinct_nontrivial"] = len(set(fens))
     ctx.notes["positions_by_endgame_class_index"] = dict(sorted(hist.items(), key=lambda kv: int(kv[0])))
     ctx.notes["endgame_positions"] = nend
